@@ -11,6 +11,7 @@ import Driver.Pretend
 import Driver.Listing
 import Driver.Tf
 import Driver.Dual
+import Driver.Display
 open Btcdeb
 namespace Driver
 
@@ -21,6 +22,7 @@ def extraCmds : List (String × (Bool → List String → String)) :=
     ("SPEND", fun spec a => if spec then cmdSpendSpec a else cmdSpendModel a),
     ("SPENDR", fun spec a => if spec then cmdSpendSpec a else cmdSpendModelR true a),
     ("LISTING", cmdListing), ("DUAL", cmdDual),
-    ("TF", cmdTf), ("INLINE", cmdInline) ]
+    ("TF", cmdTf), ("INLINE", cmdInline),
+    ("DISPLAY", cmdDisplay) ]
 
 end Driver
